@@ -73,7 +73,7 @@ func c03Check(m *MClaims, c psatoken.IClaims, kp keyPair, validating bool, prep 
 	if !bytes.Equal(parts.Payload, want) {
 		return fmt.Sprintf("payload is not the validated encoding of the claims:\n  payload %x\n  encoding %x", parts.Payload, want)
 	}
-	if l := icose.SigLen(kp.Alg); len(parts.Signature) != l {
+	if l := kp.SigLen(); len(parts.Signature) != l {
 		return fmt.Sprintf("signature is %d bytes, %s requires %d", len(parts.Signature), icose.AlgName(kp.Alg), l)
 	}
 	// independent verification: Sig_structure with empty external AAD
@@ -121,12 +121,37 @@ func c03Check(m *MClaims, c psatoken.IClaims, kp keyPair, validating bool, prep 
 	if dec.Verify(other.Pub) == nil {
 		return "decoded Evidence verifies with a different key"
 	}
+	// second use of the decoded Evidence: a correctly signed token whose
+	// payload is a claims map with one wrong-typed claim does not decode; the
+	// Evidence must not go on exposing the first token's claims while
+	// verifying the second token's signature
+	{
+		bad := m.Clone()
+		root := bad.WireNode()
+		if sl := slotOf(bad.Prof, root, wtarget{comp: -1, key: wireKey(bad.Prof, CClientID)}); sl != nil {
+			sl[1] = icbor.Tstr("not an integer")
+		}
+		kb := keyFor(icose.EdDSA, 7)
+		if tb, err := icose.SignedToken(kb.Alg, kb.Priv, icbor.Encode(root)); err == nil {
+			if uerr := dec.UnmarshalCOSE(tb); uerr == nil {
+				return "UnmarshalCOSE accepted a token whose client id is a text string"
+			}
+			if dec.Verify(kb.Pub) == nil && dec.Claims != nil {
+				return "after a failed UnmarshalCOSE the Evidence verifies the NEW token's signature while still exposing the PREVIOUS token's claims"
+			}
+			if dec.Verify(kp.Pub) == nil && dec.Claims == nil {
+				// old envelope kept, claims dropped: allowed by C19's model only
+				// if no claims are exposed - nothing to report
+				_ = 0
+			}
+		}
+	}
 	return ""
 }
 
 func TestC03_SignRoundTrip(t *testing.T) {
 	st := NewStats("C03", "TestC03_SignRoundTrip", "rapid: valid claims-sets of both profiles (all optional subsets, hash sizes, 1..4 components) x 7 algorithms (ES256/384/512, EdDSA, PS256/384/512) x deterministic keys, through ValidateAndSign and Sign, on a fresh Evidence or one that already signed / decoded (another algorithm's token) / failed to sign or decode; other claims-sets are encoded between signing and checking: independent parse (tag 18, 4-array, protected {1:alg}, payload byte-identical to ValidateAndEncodeClaimsToCBOR, signature length), independent verification with empty external AAD, library decode-and-validate gives identical getters, Verify succeeds on the signing and the decoded Evidence, claims equal the decoding of the split-out payload. Non-trivial = other than the canned builder sets under ES256; distinct = (alg, key, profile, class vector)")
-	st.Require = []string{"ES256", "ES384", "ES512", "EdDSA", "PS256", "PS384", "PS512", "P1", "P2", "Sign", "ValidateAndSign", "prior=fresh", "prior=decoded", "prior=signed"}
+	st.Require = []string{"ES256", "ES384", "ES512", "EdDSA", "PS256", "PS384", "PS512", "P1", "P2", "Sign", "ValidateAndSign", "prior=fresh", "prior=decoded", "prior=signed", "alg-and-curve-differ"}
 	defer st.Flush(t)
 	rapid.Check(t, func(t *rapid.T) {
 		p := drawProf(t)
@@ -141,6 +166,13 @@ func TestC03_SignRoundTrip(t *testing.T) {
 		}
 		alg := rapid.SampledFrom(icose.AllAlgs).Draw(t, "alg")
 		kp := keyFor(alg, rapid.IntRange(0, 5).Draw(t, "key"))
+		mixed := false
+		if (alg == icose.ES256 || alg == icose.ES384 || alg == icose.ES512) && rapid.IntRange(0, 3).Draw(t, "othercurve") == 0 {
+			// go-cose signs with any of the three curves under any ECDSA algorithm
+			curveAlg := rapid.SampledFrom([]int64{icose.ES256, icose.ES384, icose.ES512}).Draw(t, "curve")
+			kp = keyForCurve(alg, curveAlg, kp.Idx)
+			mixed = curveAlg != alg
+		}
 		validating := genBool.Draw(t, "validating")
 		prior := rapid.SampledFrom([]string{"fresh", "fresh", "signed", "vsigned", "decoded", "failed-sign", "failed-decode"}).Draw(t, "prior")
 		var prep func(*psatoken.Evidence)
@@ -160,7 +192,11 @@ func TestC03_SignRoundTrip(t *testing.T) {
 		if alg != icose.ES256 || !m.IsCanned() {
 			key = kp.Name() + "|" + m.ClassVector()
 		}
-		st.Case(key, icose.AlgName(alg), p.String(), op, "prior="+prior)
+		cl := []string{icose.AlgName(alg), p.String(), op, "prior=" + prior}
+		if mixed {
+			cl = append(cl, "alg-and-curve-differ")
+		}
+		st.Case(key, cl...)
 		if key != "" && st.WantSample() {
 			st.Sample(map[string]any{"key": kp.Name(), "op": op, "claims": m.ClassVector()})
 		}
